@@ -5,7 +5,7 @@ import types
 from fractions import Fraction
 import z3
 
-from .values import (SymStr, Choice, SymList, Obj, OPAQUE, Unsupported, is_z3, is_bv, is_zint, is_zreal, is_zbool, is_fp,
+from .values import (OPQ, SymStr, Choice, SymList, Obj, OPAQUE, Unsupported, is_z3, is_bv, is_zint, is_zreal, is_zbool, is_fp,
                      is_pyint, zand, zor, znot, zbool, tobool_const)
 from .ctx import PyRaise, Killed, NoFork
 from .src import ModuleInfo, ShapeMismatch
@@ -333,6 +333,10 @@ class ExprMixin:
         ops = self.ops
         if a is b:
             return (a,)
+        if a is OPQ or b is OPQ:
+            if (a is OPQ or isinstance(a, (int, float))) and (b is OPQ or isinstance(b, (int, float))):
+                return (OPQ,)
+            return None
         if not is_z3(a) and not is_z3(b) and not isinstance(a, (list, tuple, dict, Obj, Choice, SymList)) \
                 and not isinstance(b, (list, tuple, dict, Obj, Choice, SymList)):
             try:
@@ -463,6 +467,8 @@ class ExprMixin:
             else:
                 alts.append((g, v))
         ch = Choice(alts)
+        if alts and all(v is OPQ for _, v in alts):
+            return OPQ
         if self.ops._choice_is_num(ch):
             return self.ops._num_choice(ch)
         if all(isinstance(v, tuple) for _, v in alts) and len({len(v) for _, v in alts}) == 1:
